@@ -100,18 +100,18 @@ def invalid_request(rng, tr: Tracker, kind=None):
     return None
 
 
-def random_query(rng, tr: Tracker):
+def random_query(rng, tr: Tracker, p_sub=0.12):
     r = rng.random()
     all_ops = [(j, p) for j, job in enumerate(tr.spec) for p in range(len(job))]
     ready = [[j, tr.jnext[j]] for j in tr.ready_jobs()]
-    if r < 0.12 and ready:
+    if r < p_sub and ready:
         sub = [k for k in ready if rng.random() < 0.6] or [rng.choice(ready)]
         if rng.random() < 0.3:
             rng.shuffle(sub)
         if rng.random() < 0.5:
             return [1, 15, sub]
         return [1, 16, [rng.randrange(4), sub]]
-    if r < 0.15 and all_ops:
+    if r < p_sub + 0.03 and all_ops:
         return [1, 15, [list(rng.choice(all_ops)) for _ in range(rng.randint(0, 3))]]
     if r < 0.7 or not all_ops:
         return [1, rng.choice(Q_NOARG), []]
@@ -164,7 +164,7 @@ def invalid_env_step(rng, tr: Tracker):
 def gen_session(rng: random.Random, spec, *, p_invalid=0.0, p_query=0.0, p_reset=0.0,
                 p_obs=0.0, p_snapshot=1.0, start_observers=(), max_events=60,
                 snapshot_around_invalid=False, stop_early=0.15, obs_kinds=(0, 1, 2, 3, 4, 5),
-                env_mode=False, p_cog=0.2):
+                env_mode=False, p_cog=0.2, p_sub=0.12):
     """Returns (events, stats)."""
     tr = Tracker(spec)
     events = []
@@ -205,7 +205,7 @@ def gen_session(rng: random.Random, spec, *, p_invalid=0.0, p_query=0.0, p_reset
         r = rng.random()
         if r < p_query:
             for _ in range(rng.randint(1, 4)):
-                events.append(random_query(rng, tr))
+                events.append(random_query(rng, tr, p_sub))
                 stats["query"] += 1
             continue
         r = rng.random()
